@@ -119,6 +119,19 @@ theorem crop_source_idempotent (v : Nat → Nat → Bool) (rows cols r0 r1 c0 c1
 
 example : cropSource (fun i j => decide (1 ≤ i ∧ i ≤ 2 ∧ 2 ≤ j ∧ j ≤ 3)) 4 5 = some (1, 3, 2, 4) := by decide
 
+/-- (TRANSLATED) the statistics the object reports are the util statistics of the same name applied to `self.data`:
+    `Interferogram.pv / rms / Sa / std` hand `self.data` to `util.pv / rms / Sa / std` (codes 1, 2, 3, 4), so `gen_util_stats` and
+    `util_stats_identities` are statements about what the properties return -/
+theorem gen_stats_delegation : Generated.C12.ifgStatCallee = [1, 2, 3, 4] := by decide
+
+/-- (TRANSLATED) `pad(samples=...)` asks `pad2d` for the shape `(rows + s0, cols + s1)` — each count added to its own axis, for
+    every shape and every pair of counts —, an integer `samples` pads both axes, and `self.data`, `value` and that shape are
+    what `pad2d` receives -/
+theorem gen_pad_shape (rows cols s0 s1 : Int) :
+    Generated.C12.padShape0 rows cols s0 s1 = rows + s0 ∧ Generated.C12.padShape1 rows cols s0 s1 = cols + s1 ∧
+    Generated.C12.padIntSamplesBothAxes = true ∧ Generated.C12.padHandsDataValueShapeToPad2d = true := by
+  refine ⟨?_, ?_, by decide, by decide⟩ <;> simp only [Generated.C12.padShape0, Generated.C12.padShape1] <;> omega
+
 /-- (TRANSLATED) the five statistics of `prysm.util`, read as list expressions over the valid samples, ARE the model's:
     `mean`, `pv = max - min`, `rms = sqrt (mean square)`, `Sa = sum |v - mean| / n`, `std = sqrt (variance)` -/
 theorem gen_util_stats {K : Type} [Num K] [LT K] [DecidableLT K] (absf sqrtf : K → K) (v : List K) :
@@ -350,6 +363,21 @@ theorem ls_removal_idempotent {m k : Nat} (A : Fin m → Fin k → K) (z : Fin m
     (hind : ∀ d : Fin k → K, (∀ j, ∑ i, A i j * ∑ l, A i l * d l = 0) → d = 0)
     (h : C12L.NormalEq A z c) (h' : C12L.NormalEq A (C12L.removeCols A z c S) c') : ∀ l ∈ S, c' l = 0 :=
   C12L.refit_zero A z c c' S hind h h'
+
+/-- tilt removal is idempotent for EVERY rank of the design (single row / column, a single valid sample, collinear samples
+    included): when ALL fitted columns are removed (tilt: `x` and `y`, no constant), the zero vector solves the normal equations of
+    the re-fit, and zero is the unique minimum-norm vector — the solution `np.linalg.lstsq` returns — so re-fitting finds nothing.
+    (For a removed SUBSET — power removal — this is false for rank-deficient designs; see `ls_removal_idempotent`.) -/
+theorem tilt_removal_idempotent_any_rank {F : Type} [Field F] [LinearOrder F] [IsStrictOrderedRing F] {m k : Nat}
+    (A : Fin m → Fin k → F) (z : Fin m → F) (c : Fin k → F) (h : C12L.NormalEq A z c) :
+    C12L.NormalEq A (C12L.removeCols A z c Finset.univ) (fun _ => 0) ∧
+    ∀ d : Fin k → F, C12L.NormalEq A (C12L.removeCols A z c Finset.univ) d →
+      (∑ l : Fin k, ((fun _ => (0 : F)) l) ^ 2 ≤ ∑ l, d l ^ 2) ∧ (∑ l, d l ^ 2 = 0 → d = fun _ => 0) :=
+  ⟨C12L.full_removal_zero_solves A z c h, fun d _ => C12L.zero_is_min_norm d⟩
+
+/-- non-vacuity (rank-deficient): a zero design column — the `y` column of a single-row map — any coefficient solves the normal equations -/
+example : C12L.NormalEq (fun (_ : Fin 2) (_ : Fin 1) => (0 : ℚ)) ![1, 3] (fun _ => 5) := by
+  intro j; simp
 
 /-- non-vacuity: a one-column design of ones has independent columns, and the mean solves its normal equations -/
 example : (∀ d : Fin 1 → ℚ, (∀ j : Fin 1, ∑ i : Fin 2, (fun (_ : Fin 2) (_ : Fin 1) => (1 : ℚ)) i j *
